@@ -49,7 +49,7 @@ def gen_cases(rng, tier):
         if rng.random() < 0.1:
             alpha = ALPHA + 'U'          # mixed T and U
         s = ''.join(rng.choice(alpha) for _ in range(n))
-        cases.append({'op': rng.choice(list(OPS)), 's': s, 'basket': rng.random() < 0.3})
+        cases.append({'op': rng.choice(list(OPS)), 's': s, 'basket': rng.random() < 0.3, 'ufts': rng.random() < 0.3})
     # history stream: the object is built from one string and edited in place (alphabet switched, residues assigned,
     # copied) before the operation; baskets with several sequences incl. a sequence next to its own reverse complement
     nhist = 3000 if tier == 'thorough' else 400
@@ -69,7 +69,7 @@ def gen_cases(rng, tier):
                 else:
                     others.append(''.join(rng.choice(ALPHA) for _ in range(rng.randrange(0, 6))))
         cases.append({'op': rng.choice(['complement', 'rc', 'rev_complement', 'rc_rc', 'reverse']), 's': s, 'basket': bool(others),
-                      'pre': pre, 'others': others})
+                      'pre': pre, 'others': others, 'ufts': rng.random() < 0.3})
     return cases
 
 
@@ -142,11 +142,12 @@ def impl(case):
     if op == 'complement':
         r = obj.complement()
     elif op == 'rc':
-        r = obj.rc()
+        # the update_fts option must not change what happens to the residues
+        r = obj.rc(update_fts=True) if case.get('ufts') else obj.rc()
     elif op == 'rev_complement':
         r = obj.complement().reverse()
     elif op == 'rc_rc':
-        r = obj.rc().rc()
+        r = obj.rc(update_fts=True).rc(update_fts=True) if case.get('ufts') else obj.rc().rc()
     else:
         r = obj.reverse()
     assert r is obj, 'in-place operation must return the receiver'
